@@ -135,7 +135,8 @@ CHECKS["C16"] = ("exploration",
     TRUST, "DESIGN.md §4 C16")
 CHECKS["C17"] = ("exploration",
     "linear_fit on all permutations of small integer data sets + seeded data (normal equations checked by TLC); Levenberg-Marquardt runs with "
-    "a counting model closure judged by TLC (Val_C17, Fit) against the normal-equation solution / the generating parameters",
+    "a counting model closure judged by TLC (Val_C17, Fit) against the normal-equation solution / the generating parameters; the control "
+    "skeleton of curve_fit_jac (LmControl) is model-checked and every real run's closure-call blocks are validated against it (Trace_Lm)",
     "Exhaustive small scope for linear_fit, exploration for LM. curve_fit (finite-difference variant) has a known, unfixable-under-the-rules "
     "defect listed in known-findings.txt by call site: a failure is attributed to it only when the same case passes the whole contract "
     "through a counterfactual twin of optimize/mod.rs (that one statement corrected, built from the tree under test); any other failure "
